@@ -3,7 +3,7 @@
 (* C04: enumeration of ClientHello messages with the JA4 parts Ja4.tla     *)
 (* assigns; checks on the definition that the sorted parts are invariant   *)
 (* under permutation and GREASE insertion while the original-order parts   *)
-(* follow the order.  Families: ver, presence, perm, grease, sizes, misc.   *)
+(* follow the order.  Families: ver, presence, perm, grease, sizes, misc, embed.  *)
 (***************************************************************************)
 EXTENDS Ja4, Json, IOUtils, TLC
 
@@ -63,7 +63,15 @@ SizeCases == {[Base EXCEPT !.ciphers = Ciph(n), !.exts = Exts(m)] : n \in {1, 98
 MiscCases == {[Base EXCEPT !.sid = s, !.comps = c, !.exts = <<Sni(Host), RawB(65000, b), AlpnE(<<Http11>>), RawB(21, Rep(0, 40))>>] :
                 s \in {<<>>, Rep(9, 32), <<1>>}, c \in {<<0>>, <<1, 0>>}, b \in {<<>>, <<1, 2, 3>>, Rep(255, 300)}}
 
-Cases == CASE Fam = "ver" -> VerCases [] Fam = "presence" -> PresenceCases [] Fam = "perm" -> PermCases
+\* ---- opaque fields that look like TLS records themselves (a reassembler must not re-synchronise on them):
+\* a record header at the start of the session id and of an unknown extension, and a complete decoy ClientHello record
+\* carried in an extension body
+Decoy == [Base EXCEPT !.legacy = 769, !.ciphers = <<47, 53>>, !.exts = <<Sni(<<100, 101, 99, 111, 121, 46, 120>>)>>]
+RecLike == <<22, 3, 1, 0, 20, 1, 0, 0, 16, 3, 3>> \o Rep(7, 21)
+EmbedCases == {[Base EXCEPT !.sid = s, !.exts = <<Sni(Host), RawB(35, b), Sv(<<772, 771>>), AlpnE(<<H2>>)>>] :
+                 s \in {<<>>, RecLike}, b \in {<<22, 3, 3, 0, 2, 1, 0>>, Wire(Decoy), <<23, 3, 3, 0, 4, 1, 2, 3, 4>> \o Wire(Decoy)}}
+
+Cases == CASE Fam = "embed" -> EmbedCases [] Fam = "ver" -> VerCases [] Fam = "presence" -> PresenceCases [] Fam = "perm" -> PermCases
            [] Fam = "grease" -> GreaseCases [] Fam = "sizes" -> SizeCases [] Fam = "misc" -> MiscCases
 CaseSeq == SetToSeq(Cases)
 
